@@ -577,7 +577,9 @@ Section Star.
     assert (ND1 : NoDup (map fst L1)).
     { unfold L1. rewrite map_map. cbn [fst]. rewrite <- (map_map fst (fun k => 1 + k)).
       apply FinFun.Injective_map_NoDup; [intros a b; lia | exact ND]. }
-    unfold star at 3. cbn [to_mtree]. unfold star_m. f_equal.
+    unfold star at 1. cbn [to_mtree]. unfold star_m.
+    replace (match map (fun p : Z * Z => T (1 + fst p) (Some (fst p)) None None []) ns with [] => None | _ :: _ => None end) with (@None Z) by (destruct (map (fun p : Z * Z => T (1 + fst p) (Some (fst p)) None None []) ns); reflexivity).
+    f_equal.
     - rewrite lookup_app_notin.
       + unfold L2, star. cbn [t_id lookup]. fold (star ns). rewrite star_cmask. reflexivity.
       + unfold L1. rewrite map_map. cbn [fst]. intro H. apply in_map_iff in H. destruct H as (p & Hp & Hin).
